@@ -79,6 +79,14 @@ def check_try_from_iter(ctx, F, tag):
         fs = facts_at(b, bi)
         some = any(f[0] == "discr" and f[2] == 1 and any(x[0] == "call" and x[1].split("::")[-1] == "next_back" for x in subterms(f[1])) for f in fs)
         nz = any(fact_nonzero(fs, x) for x in subterms(arg) if x[0] in ("var", "field", "downcast"))
+        # `if let Some(last) = universe.checked_sub(1)`: Some exactly when universe >= 1
+        vars_ = [x for x in subterms(arg) if x[0] in ("var", "field", "downcast")]
+        for f in fs:
+            if f[0] == "discr" and f[2] == 1:
+                for x in subterms(f[1]):
+                    if x[0] == "call" and x[1].split("::")[-1] == "checked_sub" and len(x[2]) == 2 and core(x[2][1])[0] == "const" and isinstance(core(x[2][1])[1], int) and \
+                            core(x[2][1])[1] >= 1 and any(core(x[2][0]) == core(v) for v in vars_):
+                        nz = True
         late.append((loc(t["sp"]), some or nz))
     ctx.ob("C11.R5.last-item-set-only-when-taken", b.name + tag, loc(b.raw["span"]), all(o for _, o in late) if late else None, "guard-dominance",
            "try_set calls outside the loop (the item taken by next_back), each behind `next_back() is Some` / `universe != 0`: %s" % late)
@@ -197,4 +205,8 @@ def check_config(ctx, F, tag):
         b = F.body(ctor)
         gpc = [(bi, t) for bi, t in b.calls() if callee_name(t) == "sparse_vector::SparseBuilder::get_params"]
         ok = len(gpc) == 1 and core(b.term_of_operand(gpc[0][1]["args"][0]))[:2] == ("param", 0) and core(b.term_of_operand(gpc[0][1]["args"][1]))[:2] == ("param", 1)
+        if not ok and not gpc:
+            # one constructor delegating to the other with its own two arguments (`..Self::multiset(universe, ones)`)
+            other = [t for bi, t in b.calls() if callee_name(t) in ("sparse_vector::SparseBuilder::new", "sparse_vector::SparseBuilder::multiset") and callee_name(t) != ctor]
+            ok = len(other) == 1 and core(b.term_of_operand(other[0]["args"][0]))[:2] == ("param", 0) and core(b.term_of_operand(other[0]["args"][1]))[:2] == ("param", 1)
         ctx.ob("C11.R3.sparse-ctor-uses-params", ctor + tag, loc(b.raw["span"]), ok, "provenance", "get_params(universe, ones) with the constructor's own arguments: %s" % ok, nontrivial=False)
